@@ -288,8 +288,9 @@ def simplex_weights(x, sizes, clip=True):
   return W
 
 
-def input_grid(sizes, fine=True, outside=True):
-  """Full cartesian grid: vertices, cell interiors, faces, outside both ends."""
+def input_grid(sizes, fine=True, outside=True, far=False):
+  """Full cartesian grid: vertices, cell interiors, faces, outside both ends; far adds points more
+  than one full cell outside the range on both sides."""
   axes = []
   for s in sizes:
     pts = set()
@@ -303,5 +304,8 @@ def input_grid(sizes, fine=True, outside=True):
     if outside:
       pts.add(-0.5)
       pts.add(s - 0.5)
+      if far:
+        pts.add(-1.5)
+        pts.add(s + 1.25)
     axes.append(sorted(pts))
   return np.array(list(itertools.product(*axes)), dtype=np.float64)
